@@ -228,6 +228,8 @@ def c18(ctx):
     env = ctx.run.env
     if env is None:
         return
+    for x in getattr(ctx.run, "c18_findings", []):
+        yield F(x["sig"], x["detail"], x.get("step"))
     import canon
     from jobshoplab.state_machine.core.state_machine.state import get_possible_transitions
     joker0 = int(ctx.cfg.get("joker", 5))
